@@ -872,11 +872,16 @@ Proof.
   - eapply Forall_impl; [|exact H]. intros a Ha. exact (proj1 Ha).
 Qed.
 
+Lemma union_IH {X} (Q : X -> Prop) (oneo anyo : option X) :
+  OForall Q oneo -> OForall Q anyo -> OForall Q (match anyo with None => oneo | Some _ => match oneo with Some _ => oneo | None => anyo end end).
+Proof. destruct oneo, anyo; cbn [OForall]; intros H1 H2; assumption. Qed.
+
 Lemma schema_ind_p (P : schema -> Prop) :
   (forall b, P (SBool b)) ->
   (forall ty fmt enum cst nv sv ik items ai mni mxi uq props req ap mnp mxp allo anyo oneo no ref dflt title,
      Forall P items -> Forall (fun kv => P (snd kv)) props -> OForall P ap ->
      OForall (Forall (fun b => P b /\ PropP P b)) oneo ->
+     OForall (Forall (fun b => P b /\ PropP P b)) anyo ->
      P (SObj ty fmt enum cst nv sv ik items ai mni mxi uq props req ap mnp mxp allo anyo oneo no ref dflt title)) ->
   forall s, P s.
 Proof.
@@ -885,12 +890,13 @@ Proof.
   { apply schema_ind'.
     - intro b. split; [apply HB|]. intros v sc H. destruct H.
     - intros ty fmt enum cst nv sv ik items ai mni mxi uq props req ap mnp mxp allo anyo oneo no ref dflt title
-             IHitems _ IHprops IHap _ _ IHone _. split.
+             IHitems _ IHprops IHap _ IHany IHone _. split.
       + apply HO.
         * eapply Forall_impl; [|exact IHitems]. intros a Ha. exact (proj1 Ha).
         * eapply Forall_impl; [|exact IHprops]. intros a Ha. exact (proj1 Ha).
         * destruct ap; [exact (proj1 IHap)|exact I].
         * destruct oneo as [bs|]; [|exact I]. cbn [OForall] in *. exact IHone.
+        * destruct anyo as [bs|]; [|exact I]. cbn [OForall] in *. exact IHany.
       + intros v sc Hx. cbn [sch_props] in Hx. rewrite Forall_forall in IHprops. exact (proj1 (IHprops _ Hx)). }
   intro s. apply H.
 Qed.
@@ -1071,7 +1077,7 @@ Section Main.
       /\ no = None.
   Proof.
     cbn [frag]. destruct (classify _ _ _ _ _ _ _ _ _ _ _ _ _ _ _ _ _ _ _ _ _ _ _ _) as [[nl k]|] eqn:Hc; [|discriminate].
-    intros _. exists nl, k. split; [reflexivity|]. unfold classify in Hc.
+    intros Hfr. exists nl, k. split; [reflexivity|]. unfold classify in Hc.
     destruct oneo as [bs|].
     - destruct (only_one _ _ _ _ _ _ _ _ _ _ _ _ _ _ _ _ _ _ _ _ _ _ _) eqn:Ho; [|discriminate].
       unfold only_one in Ho. bool_facts. subst.
@@ -1079,8 +1085,15 @@ Section Main.
       + injection Hc as <- <-. repeat split; try reflexivity. exists bs. reflexivity.
       + destruct (one_kind bs) as [tg|]; [|discriminate]. cbn [option_map] in Hc. injection Hc as <- <-.
         repeat split; try reflexivity. exists bs. reflexivity.
-    - destruct (no_extras cst ai mnp mxp allo anyo None no dflt title) eqn:Hne; [|discriminate].
-      destruct (no_extras_inv _ _ _ _ _ _ _ _ _ _ Hne) as (-> & -> & -> & _ & ->).
+    - destruct anyo as [abs|].
+      { (* "anyOf": in the model, not (yet) in the theorems' fragment *)
+        exfalso. destruct (only_any _ _ _ _ _ _ _ _ _ _ _ _ _ _ _ _ _ _ _ _ _ _); [|discriminate].
+        unfold any_kind in Hc. destruct (opt_shape abs) as [[|]|]; cbn [option_map] in Hc; try discriminate.
+        - injection Hc as <- <-. cbn [proved_union is_none andb] in Hfr. discriminate Hfr.
+        - destruct (opt_all_map scalar_arm abs); [|discriminate]. destruct (_ && _); [|discriminate].
+          injection Hc as <- <-. cbn [proved_union is_none andb] in Hfr. discriminate Hfr. }
+      destruct (no_extras cst ai mnp mxp allo None None no dflt title) eqn:Hne; [|discriminate].
+      destruct (no_extras_inv _ _ _ _ _ _ _ _ _ _ Hne) as (-> & -> & _ & _ & ->).
       assert (Hk : match k with KOne _ | KOpt => False | _ => True end).
       { cbn [negb] in Hc. destruct ty as [l|].
         - destruct (negb (is_none ref)); [discriminate|]. destruct (split_type l) as [[nl' tt]|]; [|discriminate].
@@ -1092,11 +1105,11 @@ Section Main.
       repeat split; try reflexivity. destruct k; try reflexivity; contradiction.
   Qed.
 
-  Lemma is_one_none s : sch_one_of s = None -> is_one s = false.
+  Lemma is_one_none s : sch_one_of s = None -> sch_any_of s = None -> is_one s = false.
   Proof.
     destruct s as [b|ty fmt enum cst nv sv ik items ai mni mxi uq props req ap mnp mxp allo anyo oneo no ref dflt title];
       [reflexivity|].
-    cbn [sch_one_of]. intros ->. unfold is_one. cbn [classify_s]. unfold classify.
+    cbn [sch_one_of sch_any_of]. intros -> ->. unfold is_one. cbn [classify_s]. unfold classify.
     destruct (negb (no_extras _ _ _ _ _ _ _ _ _ _)); [reflexivity|].
     destruct ty as [l|].
     - destruct (negb (is_none ref)); [reflexivity|]. destruct (split_type l) as [[nl' tt]|]; [|reflexivity].
@@ -1261,8 +1274,8 @@ Section Main.
 
   Lemma mem_pair_ref r i : ref_id D r = Some i -> mem_pair A r i = true.
   Proof. apply mem_pair_index. Qed.
-  Lemma classify_cases ty fmt enum cst nv sv ik items ai mni mxi uq props req ap mnp mxp allo anyo oneo no ref dflt title nl k :
-    classify ty fmt enum cst nv sv ik items ai mni mxi uq props req ap mnp mxp allo anyo oneo no ref dflt title = Some (nl, k) ->
+  Lemma classify_cases ty fmt enum cst nv sv ik items ai mni mxi uq props req ap mnp mxp allo oneo no ref dflt title nl k :
+    classify ty fmt enum cst nv sv ik items ai mni mxi uq props req ap mnp mxp allo None oneo no ref dflt title = Some (nl, k) ->
     (exists l tt, ty = Some l /\ ref = None /\ split_type l = Some (nl, tt)
                   /\ kind_of_type fmt enum nv sv ik items mni mxi uq props req ap tt = Some k)
     \/ (ty = None /\ nl = false /\ nv = numv_none /\ sv = strv_none /\ mni = None /\ mxi = None /\
@@ -1310,7 +1323,7 @@ Section Main.
         assert (Hm : m = san d).
         { destruct sch as [b|ty fmt enum cst nv sv ik items ai mni mxi uq props req ap mnp mxp allo anyo oneo no ref dflt title];
             [discriminate|].
-          cbn [classify_s] in Htop. cbn [names_of] in Hn.
+          cbn [classify_s] in Htop. cbn [names_of union_of] in Hn.
           destruct (classify _ _ _ _ _ _ _ _ _ _ _ _ _ _ _ _ _ _ _ _ _ _ _ _) as [[[|] k]|]; try discriminate.
           destruct k; try discriminate; cbn [own_names type_name name_opt option_map app] in Hn;
             injection Hn as <- _; reflexivity. }
@@ -1659,7 +1672,7 @@ Section Main.
   Proof.
     unfold scalar_kind.
     destruct b as [|ty fmt enum cst nv sv ik items ai mni mxi uq props req ap mnp mxp allo anyo oneo no ref dflt title];
-      [discriminate|]. cbn [classify_s names_of].
+      [discriminate|]. cbn [classify_s names_of union_of].
     destruct (classify _ _ _ _ _ _ _ _ _ _ _ _ _ _ _ _ _ _ _ _ _ _ _ _) as [[[|] k]|]; try discriminate.
     destruct k; try discriminate; reflexivity.
   Qed.
@@ -1669,7 +1682,7 @@ Section Main.
   Proof.
     unfold scalar_kind.
     destruct b as [|ty fmt enum cst nv sv ik items ai mni mxi uq props req ap mnp mxp allo anyo oneo no ref dflt title];
-      [discriminate|]. cbn [classify_s conv].
+      [discriminate|]. cbn [classify_s conv union_of].
     destruct (classify _ _ _ _ _ _ _ _ _ _ _ _ _ _ _ _ _ _ _ _ _ _ _ _) as [[[|] k]|]; try discriminate.
     destruct k; try discriminate; cbn [conv_node conv_kind]; intros _ H; injection H as <- _; exact I.
   Qed.
@@ -1824,13 +1837,13 @@ Section Main.
     apply schema_ind_p.
     - intros b Hf. discriminate Hf.
     - intros ty fmt enum cst nv sv ik items ai mni mxi uq props req ap mnp mxp allo anyo oneo no ref dflt title
-             IHitems IHprops IHap IHone.
+             IHitems IHprops IHap IHone _.
       intros Hf nm s0 Hnm.
       destruct (frag_obj_inv _ _ _ _ _ _ _ _ _ _ _ _ _ _ _ _ _ _ _ _ _ _ _ _ Hf)
-        as (nl & k & Hcl & _).
+        as (nl & k & Hcl & _ & _ & -> & _).
       pose proof Hcl as Hcases. apply classify_cases in Hcases.
       cbn [frag] in Hf. rewrite Hcl in Hf. change (frag_kind k items props req ap oneo = true) in Hf.
-      cbn [conv]. rewrite Hcl.
+      cbn [conv union_of]. rewrite Hcl.
       assert (Hshape : match k with KVec _ => exists it, items = [it] | _ => True end).
       { destruct k; try exact I.
         destruct Hcases as [(l & tt & _ & _ & _ & Hk)|(_ & _ & _ & _ & _ & _ & _ & _ & _ & _ & _ & _ & _ & [(r & _ & Hk)|[(_ & Hk)|(bs & _ & _ & [(tg & Hk & _)|(Hk & _)])]])];
